@@ -182,8 +182,9 @@ FRAGMENT_V_RE = re.compile(
     r"^(?:%2F|/)watch(?:%3F|\?)v(?:%3D|=)([a-zA-Z0-9_-]{11})", re.I
 )
 # NOTE: a playlist id stops at a "?" and at a "/" too: what follows could be
-# taken for a redirection hint once the id sits in the canonical url
-QUERY_LIST_RE = re.compile(r"list=([^&#?/]+)", re.I)
+# taken for a redirection hint once the id sits in the canonical url, and at a
+# "%": it could be taken for a continuation url
+QUERY_LIST_RE = re.compile(r"list=([^&#?/%]+)", re.I)
 
 YOUTUBE_VIDEO_URL_TEMPLATE = "https://www.youtube.com/watch?v=%s"
 YOUTUBE_USER_URL_TEMPLATE = "https://www.youtube.com/user/%s"
